@@ -18,7 +18,7 @@ VERIF = os.path.dirname(os.path.dirname(os.path.abspath(__file__)))
 # Scratch runs (seeded-change trials) may redirect their output so that committed evidence is not clobbered.
 EVIDENCE_DIR = os.environ.get("VERIF_EVIDENCE_DIR") or os.path.join(VERIF, "evidence")
 REPLAY_DIR = os.environ.get("VERIF_REPLAY_DIR") or os.path.join(VERIF, "replays")
-PY = os.path.join(VERIF, ".venv", "bin", "python")
+PY = "/verif/.venv/bin/python" if os.path.exists("/verif/.venv/bin/python") else os.path.join(VERIF, ".venv", "bin", "python")
 REPLAY_WALL_S = 60
 
 
